@@ -42,3 +42,4 @@ pub proof fn lemma_count_vs_kind(s: Seq<Diagnostic>, n: int)
         if s[n - 1].kind is Error { assert(s.take(n)[n - 1].kind is Error); }
     }
 }
+
